@@ -274,6 +274,7 @@ type lserver struct {
 	c    *lchain
 	lie  lie
 	ln   net.Listener
+	srv  *http.Server
 	url  string
 	hits map[string]int
 	mtx  sync.Mutex
@@ -392,7 +393,10 @@ func startServer(c *lchain, l lie) *lserver {
 	}
 	s.ln = ln
 	s.url = "http://" + ln.Addr().String()
-	go rpcserver.Serve(ln, mux, log.NewNopLogger(), conf) //nolint:errcheck
+	// our own http.Server (rpcserver.Serve keeps its server to itself): Close() must also drop the
+	// keep-alive connections of the provider's RPC clients, or a long run exhausts the descriptors
+	s.srv = &http.Server{Handler: mux, ReadHeaderTimeout: 10 * time.Second}
+	go s.srv.Serve(ln) //nolint:errcheck
 	return s
 }
 
@@ -425,7 +429,7 @@ func runProvider(c *lchain, trust int64, lieP, lieW lie, all bool, h uint64) syn
 	servers := []*lserver{startServer(c, lieP), startServer(c, lw), startServer(c, l2)}
 	defer func() {
 		for _, s := range servers {
-			s.ln.Close()
+			s.srv.Close()
 		}
 	}()
 	ctx, cancel := context.WithTimeout(context.Background(), 20*time.Second)
@@ -680,6 +684,13 @@ func (l *lctx) op(f []string, m map[string]string) string {
 			return "bad-op"
 		}
 		r := runProvider(l.c, trust, lp, lw, m["all"] == "1", uint64(h))
+		if exp == "exact" && r.stage != "" {
+			// an error must be the provider's verdict, not a hiccup of the loopback network under
+			// load: it has to repeat
+			for try := 0; try < 2 && r.stage != ""; try++ {
+				r = runProvider(l.c, trust, lp, lw, m["all"] == "1", uint64(h))
+			}
+		}
 		if f[0] == "l.boot" {
 			if r.stage != "" {
 				return "err@" + r.stage
